@@ -1,4 +1,5 @@
 import RSocketModel.Proofs.Pipeline
+import RSocketModel.Proofs.Bridge
 import RSocketModel.Props.C02
 import RSocketModel.Props.C10
 import RSocketModel.Engine.Signals
@@ -20,11 +21,14 @@ another stream. `c01_transport` adds the byte stream: with a codec that round-tr
 `c01_end_to_end` is the two together. `c01_response_reaches_its_requester` and
 `c01_fresh_stream_per_request` are the correlation half on the engine model.
 
-Partial: the codec enters `c01_end_to_end` as a hypothesis (`parse (enc f) = [f]`) that C02 proves
-for the byte-level frame type; the bridge between the two frame records is by the correspondence
-runs (both are compared with the same implementation objects), not by a Lean function. Handler
-dispatch above reassembly (which subscriber gets `on_next`) is the engine model's theorems, not
-re-proved through the byte path. What ties all layers together on the real code is the
+`c01_end_to_end_bytes` closes the codec hypothesis with C02's decoder and encoder themselves
+(`Proofs/Bridge.lean`: `bridge : OnWire f → parseF (encF f) = [f]`, `onWire_toFrames`, `encF_length`):
+frames within the wire format's ranges, the real serialisation of every fragment, any chunking.
+
+Partial: which *subscriber / awaitable* a reassembled frame reaches is the engine model's theorems
+(`c01_response_reaches_its_requester`, `c01_dispatch_by_stream_id`, C07, C10, C13), stated on the
+engine's abstract frames and not re-proved through the byte path; timing and the asyncio
+scheduling are outside the models. What ties all layers together on the real code is the
 two-endpoint link harness of the C01 check.
 -/
 namespace RSocketModel.Pipeline
@@ -85,11 +89,12 @@ theorem queuedFor_evsOf (F : Nat) (lp : Bool) (sid : Nat) (sched : List (Option 
       simp only [evsOf, queuedFor, handed, srcOf, List.filter_cons, ih]
       split <;> simp
 
-/-- wire entries carry frames of the stream they are filed under -/
-def Cons (s : State (FFrame α)) : Prop :=
-  (∀ src ∈ s.queue, ∀ f ∈ src.frags, f.sid = src.sid) ∧ (∀ p ∈ s.wire, p.2.sid = p.1)
+/-- a property of (stream id, fragment) pairs that holds of everything queued holds of everything
+on the wire -/
+def QInv (P : Nat → FFrame α → Prop) (s : State (FFrame α)) : Prop :=
+  (∀ src ∈ s.queue, ∀ f ∈ src.frags, P src.sid f) ∧ (∀ p ∈ s.wire, P p.1 p.2)
 
-theorem cons_step (s : State (FFrame α)) (h : Cons s) : Cons (step s) := by
+theorem qinv_step (P : Nat → FFrame α → Prop) (s : State (FFrame α)) (h : QInv P s) : QInv P (step s) := by
   obtain ⟨hq, hw⟩ := h
   unfold step
   cases hqq : s.queue with
@@ -100,7 +105,7 @@ theorem cons_step (s : State (FFrame α)) (h : Cons s) : Cons (step s) := by
     cases hf : hd.frags with
     | nil => exact ⟨fun src hs => hq src (by simp [hs]), hw⟩
     | cons f rest =>
-      have hfs : f.sid = hd.sid := hq hd (by simp) f (by simp [hf])
+      have hfs : P hd.sid f := hq hd (by simp) f (by simp [hf])
       cases rest with
       | nil =>
         refine ⟨fun src hs => hq src (by simp [hs]), ?_⟩
@@ -124,8 +129,8 @@ theorem cons_step (s : State (FFrame α)) (h : Cons s) : Cons (step s) := by
           · exact hw p hp
           · exact hfs
 
-theorem cons_run (F : Nat) (lp : Bool) (hF : Gen.minimumFragmentSize ≤ F) (sched : List (Option (Base α)))
-    (hty : ∀ b, some b ∈ sched → b.ty ∈ Gen.fragmentableTypes) : ∀ s, Cons s → Cons (run s (evsOf F lp sched)) := by
+theorem qinv_run (P : Nat → FFrame α → Prop) (F : Nat) (lp : Bool) (sched : List (Option (Base α)))
+    (hP : ∀ b, some b ∈ sched → ∀ f ∈ toFrames b F lp, P b.sid f) : ∀ s, QInv P s → QInv P (run s (evsOf F lp sched)) := by
   induction sched with
   | nil => intro s h; exact h
   | cons x r ih =>
@@ -133,15 +138,22 @@ theorem cons_run (F : Nat) (lp : Bool) (hF : Gen.minimumFragmentSize ≤ F) (sch
     cases x with
     | none =>
       simp only [evsOf, run, List.foldl_cons, apply]
-      exact ih (fun b hb => hty b (by simp [hb])) _ (cons_step s h)
+      exact ih (fun b hb => hP b (by simp [hb])) _ (qinv_step P s h)
     | some b =>
       simp only [evsOf, run, List.foldl_cons, apply]
-      refine ih (fun b' hb => hty b' (by simp [hb])) _ ⟨?_, h.2⟩
+      refine ih (fun b' hb => hP b' (by simp [hb])) _ ⟨?_, h.2⟩
       intro src hs
       simp only [List.mem_append, List.mem_singleton] at hs
       rcases hs with hs | rfl
       · exact h.1 src hs
-      · exact toFrames_sid F lp hF b (hty b (by simp))
+      · exact hP b (by simp)
+
+/-- wire entries carry frames of the stream they are filed under -/
+def Cons (s : State (FFrame α)) : Prop := QInv (fun sid f => f.sid = sid) s
+
+theorem cons_run (F : Nat) (lp : Bool) (hF : Gen.minimumFragmentSize ≤ F) (sched : List (Option (Base α)))
+    (hty : ∀ b, some b ∈ sched → b.ty ∈ Gen.fragmentableTypes) : ∀ s, Cons s → Cons (run s (evsOf F lp sched)) :=
+  qinv_run _ F lp sched (fun b hb => toFrames_sid F lp hF b (hty b hb))
 
 theorem wire_proj (s : State (FFrame α)) (h : Cons s) (sid : Nat) :
     (s.wire.map (·.2)).filter (·.sid == sid) = wireOf sid s.wire := by
@@ -193,7 +205,7 @@ theorem c01_pipeline (F : Nat) (lp : Bool) (hF : Gen.minimumFragmentSize ≤ F) 
 /-- **the byte stream**: with a codec that round-trips, any chunking of the length-prefixed
 encodings of the wire frames is parsed to exactly those frames, in order -/
 theorem c01_transport {β : Type} (enc : β → RSocketModel.Bytes) (parse : RSocketModel.Bytes → List β)
-    (hcodec : ∀ f, parse (enc f) = [f]) (wire : List β) (hlen : ∀ f ∈ wire, (enc f).length < 2 ^ 24)
+    (wire : List β) (hcodec : ∀ f ∈ wire, parse (enc f) = [f]) (hlen : ∀ f ∈ wire, (enc f).length < 2 ^ 24)
     (chunks : List RSocketModel.Bytes) (h : chunks.flatten = ((wire.map enc).map Parser.prefixed).flatten) :
     Parser.feedAll parse [] chunks = (wire, []) := by
   rw [Parser.c04_frames_exact_chunked parse (wire.map enc) (by
@@ -206,8 +218,8 @@ theorem c01_transport {β : Type} (enc : β → RSocketModel.Bytes) (parse : RSo
   induction wire with
   | nil => rfl
   | cons x r ih =>
-    simp only [List.map_cons, List.flatMap_cons, hcodec, List.singleton_append]
-    rw [ih]
+    simp only [List.map_cons, List.flatMap_cons, hcodec x (by simp), List.singleton_append]
+    rw [ih (fun f hf => hcodec f (by simp [hf]))]
 
 /-- **end to end**: frames handed to the library on one endpoint, fragmented, interleaved by the
 sender, serialised, cut into arbitrary reads, parsed and reassembled on the other endpoint -/
@@ -220,7 +232,35 @@ theorem c01_end_to_end (F : Nat) (lp : Bool) (hF : Gen.minimumFragmentSize ≤ F
     (sid : Nat) :
     ((deliver [] (Parser.feedAll parse [] chunks).1).filter (·.sid == sid)).map forget =
       ((handed sched).filter (·.sid == sid)).map canonBase := by
-  rw [c01_transport enc parse hcodec _ (fun f _ => hlen f) chunks hchunks]
+  rw [c01_transport enc parse _ (fun f _ => hcodec f) (fun f _ => hlen f) chunks hchunks]
+  exact c01_pipeline F lp hF sched hty hdrain sid
+
+/-- **end to end, down to the bytes**: the same with the codec of C02 in place of the hypothesis —
+frames within the wire format's ranges, the real serialisation of every fragment, the real parser,
+any chunking -/
+theorem c01_end_to_end_bytes (F : Nat) (lp : Bool) (hF : Gen.minimumFragmentSize ≤ F) (hFmax : F + 3 < 2 ^ 24)
+    (sched : List (Option (Base UInt8))) (hwf : ∀ b, some b ∈ sched → WFBase b)
+    (hdrain : (run init (evsOf F lp sched)).queue = []) (chunks : List RSocketModel.Bytes)
+    (hchunks : chunks.flatten = ((((run init (evsOf F lp sched)).wire.map (·.2)).map encF).map Parser.prefixed).flatten)
+    (sid : Nat) :
+    ((deliver [] (Parser.feedAll parseF [] chunks).1).filter (·.sid == sid)).map forget =
+      ((handed sched).filter (·.sid == sid)).map canonBase := by
+  have hty : ∀ b, some b ∈ sched → b.ty ∈ Gen.fragmentableTypes := fun b hb => (hwf b hb).1
+  have hq := qinv_run (fun _ f => OnWire f ∧ (encF f).length < 2 ^ 24) F lp sched (by
+    intro b hb f hf
+    have how := onWire_toFrames b F lp hF (hwf b hb) f hf
+    refine ⟨how, ?_⟩
+    rw [encF_length f how.1]
+    have h1 := (c03_size_partial b F lp (hty b hb) hF f hf).1
+    have h2 : wireSize f false ≤ wireSize f lp := by
+      simp only [wireSize, lpBytes, Bool.false_eq_true, if_false]; omega
+    omega) init ⟨by simp [init], by simp [init]⟩
+  have hmem : ∀ f ∈ (run init (evsOf F lp sched)).wire.map (·.2), OnWire f ∧ (encF f).length < 2 ^ 24 := by
+    intro f hf
+    simp only [List.mem_map] at hf
+    obtain ⟨p, hp, rfl⟩ := hf
+    exact hq.2 p hp
+  rw [c01_transport encF parseF _ (fun f hf => bridge f (hmem f hf).1) (fun f hf => (hmem f hf).2) chunks hchunks]
   exact c01_pipeline F lp hF sched hty hdrain sid
 
 /-- non-vacuity of the drain hypothesis: enough sender passes always drain the queue (C05) -/
